@@ -1,12 +1,12 @@
 #!/usr/bin/env bash
-# Checks /verif/lean/{M1,M2,M4,M5}.lean (whichever are present) with Lean 4 + Mathlib — same rules as check.sh:
+# Checks /verif/lean/{M1,M2,M4,M5,M6}.lean (whichever are present) with Lean 4 + Mathlib — same rules as check.sh:
 # for each file, prints `LEAN-OK <file>` iff
 #   * lean exits 0 with no `error` and no `sorry` in its output,
 #   * the source contains no `sorry` / `admit` / `native_decide` token and no `axiom` declaration outside comments,
 #   * every expected `#print axioms` line is present and mentions only propext / Classical.choice / Quot.sound
 #     (in particular no `sorryAx`, no `Lean.ofReduceBool`, no user axiom), and no other axiom report is dirty.
 # Exit 0 iff ALL present files pass (and at least one is present); exit 1 otherwise (`LEAN-FAIL <file>: reason`).
-# Usage: ./check_rest.sh            (all of M1 M2 M4 M5 that exist)
+# Usage: ./check_rest.sh            (all of M1 M2 M4 M5 M6 that exist)
 #        ./check_rest.sh M4 M2      (only these)
 set -u
 HERE="$(cd "$(dirname "${BASH_SOURCE[0]}")" && pwd)"
@@ -18,6 +18,7 @@ expected_for() {
     M2) echo "M2.m2_sqrt_ratio M2.Inst25519.sqrt_m1_sq M2.Inst25519.m2_sqrt_ratio_25519 M2.Inst25519.IntLevel.axiom_M2_sqrt_ratio" ;;
     M4) echo "M4.m4_closure M4.m4_assoc M4.m4_comm M4.m4_identity M4.m4_inverse M4.Inst25519.m4_closure_25519 M4.Inst25519.m4_assoc_25519 M4.Inst25519.m4_comm_25519 M4.Inst25519.m4_identity_25519 M4.Inst25519.m4_inverse_25519 M4.Inst25519.IntLevel.axiom_m4_closure M4.Inst25519.IntLevel.axiom_m4_assoc M4.Inst25519.IntLevel.axiom_m4_comm M4.Inst25519.IntLevel.axiom_m4_identity M4.Inst25519.IntLevel.axiom_m4_inverse" ;;
     M5) echo "M5.sqrtRatioM1_spec M5.m5_elligator M5.Inst25519.m5_elligator_25519 M5.Inst25519.IntLevel.axiom_m5_elligator_on_curve" ;;
+    M6) echo "M6.g_is_square M6.m6_elligator2 M6.Inst25519.m6_elligator2_25519 M6.Inst25519.IntLevel.axiom_m6_elligator2_on_curve" ;;
     *)  echo "" ;;
   esac
 }
@@ -68,7 +69,7 @@ check_one() {  # $1 = base name (M1, ...); returns 0 on success
   return 0
 }
 
-if [ $# -gt 0 ]; then LIST="$*"; else LIST="M1 M4 M2 M5"; fi
+if [ $# -gt 0 ]; then LIST="$*"; else LIST="M1 M4 M2 M5 M6"; fi
 present=0; failed=0
 for b in $LIST; do
   b="${b%.lean}"
